@@ -1,5 +1,5 @@
 """C18 — bundled lookup tables are exactly what the CLDR source data determine (DESIGN §4.18)."""
-from . import common, tables
+from . import common, tables, pair, likely
 
 
 def run(tier, replay=None):
@@ -8,6 +8,17 @@ def run(tier, replay=None):
     rep.count('configuration', 'K1 (likelysubtags): %d static/const data items' % len(prog.facts.data))
     ct, exp, order, nrows = tables.likely(prog, rep)
     roles, sets, locales, nel, _ = tables.direction(prog, rep)
+    # "the integer key order that the lookup's binary search uses": the integer encoders are the full-width packings inverse to the
+    # tables' decoder, and every search in maximize is keyed by those integers, column by column, under the tables' sort order
+    pair.raw_encoding(prog, rep)
+    tmp = common.report.Report('C18', tier, 'proof', '')
+    likely.check_maximize(prog, tmp, ct, order)
+    nlook = 0
+    for o in tmp.obls:
+        if o.rule == 'CASC-LOOKUP':
+            nlook += 1
+            rep.add(o)
+    rep.floor('table searches in maximize', nlook, 6)
     rep.count('table rows compared', nrows)
     rep.count('direction elements compared', nel)
     rep.count('CLDR layout locales read', len(locales))
